@@ -29,3 +29,19 @@ Theorem C03_reachable_search_is_documented_walk :
     rsearch chk (run builtins ops) p = W chk (routes_of (r_root (run builtins ops))) p.
 Proof. exact reachable_search_is_W. Qed.
 Print Assumptions C03_reachable_search_is_documented_walk.
+
+(* ---- the order of siblings, REGENERATED from src/state.rs on this run (Gen/Keys.v): parameter nodes are ordered by name,
+        constrained ones by name and then constraint, literal nodes by prefix, and every PartialOrd delegates to Ord;
+        the model's order on keys (kcmp) is exactly that ---- *)
+From Coq Require Import Ascii String.
+From WF Require Import Base.Bytes Check.Tokens Gen.Keys Proofs.KeysP.
+Theorem C03_sibling_order_is_name_then_constraint :
+  (ord_StaticState = w "self.prefix.cmp(&other.prefix)"
+   /\ Forall (fun o => o = w "self.name.cmp(&other.name)") [ord_DynamicState; ord_WildcardState; ord_EndWildcardState]
+   /\ Forall (fun o => o = w "self.name.cmp(&other.name).then_with(||self.constraint.cmp(&other.constraint))")
+        [ord_DynamicConstrainedState; ord_WildcardConstrainedState; ord_EndWildcardConstrainedState]
+   /\ partial_ord_delegates = partial_ord_impls)
+  /\ (forall a b : bytes, kcmp (a, None) (b, None) = bcmp a b)
+  /\ (forall a b c d : bytes, kcmp (a, Some c) (b, Some d) = match bcmp a b with Eq => bcmp c d | o => o end).
+Proof. split; [exact sibling_order_shape|]. split; [exact kcmp_unconstrained|exact kcmp_constrained]. Qed.
+Print Assumptions C03_sibling_order_is_name_then_constraint.
